@@ -1,6 +1,7 @@
 import TTV.Model.Spinner
 import TTV.Spec.C15
 import TTV.Lemmas.Reactor
+import TTV.Generated.SpinnerSkel
 /-! # C15 — `Spinner.run` returns the function's own result within the timeout and restores the process
 
 All statements are about the model `TTV.Spinner` (`Model/Reactor.lean`, `Model/Spinner.lean`) and hold for
@@ -21,6 +22,9 @@ signal handlers between the calls, and `swap` = the following calls go to the ot
 * `C15_late_firing_is_inert`, `C15_own_result_despite_late_firing` : the Deferred of an EARLIER run (of this or of the other
                              Spinner on the reactor) firing or failing during a later run does nothing - the callbacks a run hangs
                              on `f`'s Deferred are dead once the run is over; the later run returns its own result
+* `iterations_frame`, `iterations_reent`, `cleaned_sigs` : `_clean`'s obligatory iterations (`Scen.oblig`, 0-3; leftover calls run, `spawn`
+                             chains schedule further calls) leave clock, flags, recorded junk and - unless a leftover installs a handler -
+                             the restored signal handlers alone; the re-entry accounting goes through them
 * `C15_rejected`, `C15_rejected_only` : a timeout the reactor rejects: `run` raises what `reactor.callLater` raised, nothing
                              observable has changed (the spinner keeps the handlers it saved in `_saved_signals`)
 * `C15_signals_every_call`, `C15_signals_history`, `C15_signals_model` : whenever `run` returns or raises, the
@@ -31,6 +35,9 @@ signal handlers between the calls, and `swap` = the following calls go to the ot
 * `C15_junk_exact`         : the recorded junk is exactly what was left over
 * `C15_bounded`, `C15_loop_ends_by_crash` : the run consumes at most `timeout` of virtual time, its loop ends by a crash
 * `C15_history_idle`       : all of it at every step of every history
+* `C15_src_callbacks`, `C15_src_stop_reactor`, `C15_src_timed_out`, `C15_src_get_result`, `C15_src_clean`, `C15_src_run`, `C15_src_shapes`
+                           : translator tie - the model is the interpretation (`TTV.SpinnerSkel`) of `Spinner.run`, its callbacks,
+                             `_get_result`, `_clean` and the helpers as re-read from `_spinner.py` on every run
 -/
 namespace TTV.Props.C15
 open TTV.Reactor TTV.Spinner TTV.Spec.C15
@@ -155,6 +162,9 @@ theorem live_step {w : W} (h : Live w) (c : DCall (QAct Act)) (rest : List (DCal
     | late f k v =>
       simp only [kindQ, kindOf, execCall, exec]
       exact ⟨⟨hatt, hdres, htc, hsucc, hfail, hspin⟩, by simp, by simp, by simp⟩
+    | spawn d ch =>
+      simp only [kindQ, kindOf, execCall, exec]
+      exact ⟨⟨hatt, hdres, htc, hsucc, hfail, hspin⟩, by simp, by simp, by simp⟩
     | addSel =>
       simp only [kindQ, kindOf, execCall, exec]
       exact ⟨⟨hatt, hdres, htc, hsucc, hfail, hspin⟩, by simp, by simp, by simp⟩
@@ -216,6 +226,7 @@ theorem done_step {r : Res} {w : W} (h : Done r w) (c : DCall (QAct Act)) (rest 
     | stop => exact hbase _ rfl rfl rfl hsub
     | noop => exact hbase _ hcr rfl rfl hsub
     | late f k v => exact hbase _ hcr rfl rfl hsub
+    | spawn d ch => exact hbase _ hcr rfl rfl hsub
     | addSel => exact hbase _ hcr rfl rfl hsub
     | setSig s h => exact hbase _ hcr rfl rfl hsub
     | reenter f => exact hbase _ hcr rfl rfl hsub
@@ -575,6 +586,7 @@ theorem exec_unattached (l : Nat) (a : Act) (w : W) (h : w.u.attached = false) :
   | stop => cases hd : w.u.dres <;> simp [exec, h, fireRes, hd]
   | noop => cases hd : w.u.dres <;> simp [exec, h, fireRes, hd]
   | late f k v => cases hd : w.u.dres <;> simp [exec, h, fireRes, hd]
+  | spawn d ch => cases hd : w.u.dres <;> simp [exec, h, fireRes, hd]
   | addSel => cases hd : w.u.dres <;> simp [exec, h, fireRes, hd]
   | setSig s x => cases hd : w.u.dres <;> simp [exec, h, fireRes, hd]
   | reenter f => cases hd : w.u.dres <;> simp [exec, h, fireRes, hd]
@@ -888,6 +900,7 @@ theorem exec_frame (l : Nat) (a : Act) (w : W) : ExecFrame l a w (exec l a w) :=
   | stop => exact ⟨rfl, fun _ => rfl, fun _ h => h, by simp [exec], rfl, rfl, rfl, rfl, rfl, rfl, rfl⟩
   | noop => exact ⟨rfl, fun _ => rfl, fun _ h => h, by simp [exec], rfl, rfl, rfl, rfl, rfl, rfl, rfl⟩
   | late f k v => exact ⟨rfl, fun _ => rfl, fun _ h => h, by simp [exec], rfl, rfl, rfl, rfl, rfl, rfl, rfl⟩
+  | spawn d ch => exact ⟨rfl, fun _ => rfl, fun _ h => h, by simp [exec], rfl, rfl, rfl, rfl, rfl, rfl, rfl⟩
   | addSel => exact ⟨rfl, fun _ => rfl, fun _ h => h, by simp [exec], rfl, rfl, rfl, rfl, rfl, rfl, rfl⟩
   | setSig s h => exact ⟨rfl, fun _ => rfl, fun _ h => h, by simp [exec], rfl, by simp [exec], rfl, rfl, rfl, rfl, rfl⟩
   | reenter f => exact ⟨rfl, fun _ => rfl, fun _ h => h, by simp [exec], rfl, rfl, rfl, rfl, rfl, rfl, rfl⟩
@@ -977,6 +990,7 @@ theorem exec_cases (l : Nat) (a : Act) (w : W) :
   | stop => exact Or.inl ⟨rfl, rfl, fun _ => rfl, rfl, rfl, Or.inr rfl⟩
   | noop => exact Or.inl ⟨rfl, rfl, id, rfl, rfl, Or.inl rfl⟩
   | late f k v => exact Or.inl ⟨rfl, rfl, id, rfl, rfl, Or.inl rfl⟩
+  | spawn d ch => exact Or.inl ⟨rfl, rfl, id, rfl, rfl, Or.inl rfl⟩
   | addSel => exact Or.inl ⟨rfl, rfl, id, rfl, rfl, Or.inl rfl⟩
   | setSig s h => exact Or.inl ⟨rfl, rfl, id, rfl, rfl, Or.inl rfl⟩
   | reenter f => exact Or.inl ⟨rfl, rfl, id, rfl, rfl, Or.inl rfl⟩
@@ -1627,43 +1641,255 @@ theorem runStep_rejected (sc : Scen) (w0 : W) (hidle : Idle w0) (hj : w0.sp.junk
   refine ⟨?_, hj, ⟨rfl, hidle.sels, hidle.running, hidle.stopPatched⟩, rfl, rfl⟩
   simp [start, hidle.sels, hidle.running, hidle.stopPatched, insAll_length, preCalls_length, hj]
 
+/-! ## `_clean`'s obligatory iterations -/
+
+/-- the state after the `finally` ladder of `run`, before `_clean` -/
+def restored (sc : Scen) (w0 : W) : W :=
+  let w := spinPhase sc (afterPre sc w0)
+  { w with running := false, stopPatched := false, sigs := restoreFrom 0 w.sp.saved w.sigs,
+           sp := { w.sp with saved := [], spinning := false } }
+
+/-- … and after the obligatory iterations -/
+def cleaned (sc : Scen) (w0 : W) : W := iterations sc sc.oblig (restored sc w0)
+
+theorem foldl_inv {α : Type} (f : W → α → W) (C : α → Prop) (P : W → Prop) (hx : ∀ c w, C c → P w → P (f w c)) :
+    ∀ (L : List α) (w : W), (∀ c ∈ L, C c) → P w → P (L.foldl f w)
+  | [], _, _, h => h
+  | c :: L, w, hC, h => foldl_inv f C P hx L (f w c) (fun x hx' => hC x (List.mem_cons_of_mem _ hx'))
+      (hx c w (hC c List.mem_cons_self) h)
+
+/-- an invariant `P` of the world that knows `C` of every queued call is kept by an iteration if running a call that satisfies
+`C` keeps it and dropping calls from the queue keeps it -/
+theorem iterOnce_inv (sc : Scen) (C : DCall (QAct Act) → Prop) (P : W → Prop)
+    (hC : ∀ w, P w → ∀ c ∈ w.calls, C c)
+    (hq : ∀ (w : W) (f : DCall (QAct Act) → Bool), P w → P { w with calls := w.calls.filter f })
+    (hx : ∀ c w, C c → P w → P (execI sc c w)) (w : W) (h : P w) : P (iterOnce sc w) := by
+  unfold iterOnce
+  exact foldl_inv (fun w c => execI sc c w) C P hx _ _
+    (fun c hc => hC w h c (List.mem_filter.mp hc).1) (hq w _ h)
+
+theorem iterations_inv (sc : Scen) (C : DCall (QAct Act) → Prop) (P : W → Prop)
+    (hC : ∀ w, P w → ∀ c ∈ w.calls, C c)
+    (hq : ∀ (w : W) (f : DCall (QAct Act) → Bool), P w → P { w with calls := w.calls.filter f })
+    (hx : ∀ c w, C c → P w → P (execI sc c w)) : ∀ (n : Nat) (w : W), P w → P (iterations sc n w)
+  | 0, _, h => h
+  | n + 1, w, h => iterations_inv sc C P hC hq hx n _ (iterOnce_inv sc C P hC hq hx w h)
+
+/-- what the iterations leave alone -/
+structure IFrame (a b : W) : Prop where
+  now : b.now = a.now
+  running : b.running = a.running
+  stopPatched : b.stopPatched = a.stopPatched
+  junk : b.sp.junk = a.sp.junk
+  t0 : b.t0 = a.t0
+  sigsLen : b.sigs.length = a.sigs.length
+  saved : b.sp.saved = a.sp.saved
+
+theorem execI_frame (sc : Scen) (a : W) (c : DCall (QAct Act)) (w : W) (h : IFrame a w) : IFrame a (execI sc c w) := by
+  rcases c with ⟨t, q⟩
+  cases q with
+  | timeout =>
+    exact ⟨by simpa [execI] using h.now, by simpa [execI] using h.running, by simpa [execI] using h.stopPatched,
+      by simpa [execI] using h.junk, by simpa [execI] using h.t0, by simpa [execI] using h.sigsLen, by simpa [execI] using h.saved⟩
+  | user l act =>
+    have hf := exec_frame l act (logEvent (.user l) w)
+    have hs := exec_saved l act (logEvent (.user l) w)
+    cases act with
+    | spawn d ch => exact ⟨h.now, h.running, h.stopPatched, h.junk, h.t0, h.sigsLen, h.saved⟩
+    | fire v => exact ⟨h.now, h.running, h.stopPatched, h.junk, h.t0, h.sigsLen, h.saved⟩
+    | fail e => exact ⟨h.now, h.running, h.stopPatched, h.junk, h.t0, h.sigsLen, h.saved⟩
+    | _ =>
+      exact ⟨by simp only [execI]; rw [hf.now]; exact h.now, by simp only [execI]; rw [hf.running]; exact h.running,
+        by simp only [execI]; rw [hf.stopPatched]; exact h.stopPatched, by simp only [execI]; rw [hf.junk]; exact h.junk,
+        by simp only [execI]; rw [hf.t0]; exact h.t0, by simp only [execI]; rw [hf.sigs]; exact h.sigsLen,
+        by simp only [execI]; rw [hs]; exact h.saved⟩
+
+theorem iterations_frame (sc : Scen) (n : Nat) (w : W) : IFrame w (iterations sc n w) :=
+  iterations_inv sc (fun _ => True) (IFrame w) (fun _ _ _ _ => trivial)
+    (fun _ _ h => ⟨h.now, h.running, h.stopPatched, h.junk, h.t0, h.sigsLen, h.saved⟩)
+    (fun c w' _ h => execI_frame sc w c w' h) n w ⟨rfl, rfl, rfl, rfl, rfl, rfl, rfl⟩
+
+/-- a queued call is one of the scenario (its label says which), or one scheduled by a `spawn` during the iterations: those never
+re-enter `run` and never install a signal handler -/
+def LabC (sc : Scen) (c : DCall (QAct Act)) : Prop :=
+  ∀ l a, c.act = .user l a →
+    actOf sc l = some a ∨ (labels sc ≤ l ∧ isReenter a = false ∧ ∀ s h, a ≠ .setSig s h)
+
+theorem actOf_none (sc : Scen) (l : Nat) (h : labels sc ≤ l) : actOf sc l = none := by
+  unfold actOf labels at *
+  have h1 : ¬ l < sc.pre.length := by omega
+  rw [if_neg h1]
+  have : sc.body[l - sc.pre.length]? = none := List.getElem?_eq_none (by omega)
+  rw [this]
+
+theorem childAct_ok (ch : Child) : isReenter ch.toAct = false ∧ ∀ s h, ch.toAct ≠ .setSig s h := by
+  cases ch <;> exact ⟨rfl, fun _ _ h => by cases h⟩
+
+/-- the re-entry bookkeeping through the iterations -/
+structure IReent (sc : Scen) (w : W) : Prop where
+  lab : ∀ c ∈ w.calls, LabC sc c
+  reent : w.u.reentries.length = (w.events.filter (isReenterEv sc)).length
+  reent_all : ∀ r ∈ w.u.reentries, r = .reentry
+
+theorem isReenterEv_none (sc : Scen) (t l : Nat) (h : actOf sc l = none) : isReenterEv sc (t, .user l) = false := by
+  simp [isReenterEv, h]
+
+theorem execI_reent (sc : Scen) (c : DCall (QAct Act)) (w : W) (hc : LabC sc c) (h : IReent sc w) : IReent sc (execI sc c w) := by
+  rcases c with ⟨t, q⟩
+  cases q with
+  | timeout =>
+    refine ⟨by simpa [execI] using h.lab, ?_, by simpa [execI] using h.reent_all⟩
+    simp only [execI, execTimeout_u, execTimeout_events, List.filter_append, List.length_append]
+    rw [h.reent]; simp [isReenterEv]
+  | user l act =>
+    have hev : isReenterEv sc (w.now - w.t0, .user l) = isReenter act := by
+      rcases hc l act rfl with h1 | ⟨h1, h2, _⟩
+      · exact isReenterEv_user sc _ l act h1
+      · rw [isReenterEv_none sc _ l (actOf_none sc l h1), h2]
+    by_cases hsp : ∃ d ch, act = .spawn d ch
+    · obtain ⟨d, ch, rfl⟩ := hsp
+      refine ⟨?_, ?_, h.reent_all⟩
+      · intro c' hc'
+        simp only [execI, schedule_calls, logEvent_calls, logEvent_now] at hc'
+        rcases mem_insert.mp hc' with rfl | hc'
+        · intro l' a' ha'
+          injection ha' with h1 h2
+          subst h1; subst h2
+          exact Or.inr ⟨by omega, (childAct_ok ch).1, (childAct_ok ch).2⟩
+        · exact h.lab c' hc'
+      · simp only [execI, schedule_u, schedule_events, logEvent_u, logEvent_events, List.filter_append, List.length_append,
+          List.filter_cons, hev, List.filter_nil]
+        rw [h.reent]; rfl
+    · by_cases hfi : (∃ v, act = .fire v) ∨ (∃ e, act = .fail e)
+      · have hx : execI sc ⟨t, .user l act⟩ w = logEvent (.user l) w := by
+          rcases hfi with ⟨v, rfl⟩ | ⟨e, rfl⟩ <;> rfl
+        have hre : isReenter act = false := by rcases hfi with ⟨v, rfl⟩ | ⟨e, rfl⟩ <;> rfl
+        rw [hx]
+        refine ⟨h.lab, ?_, h.reent_all⟩
+        simp only [logEvent_u, logEvent_events, List.filter_append, List.length_append, List.filter_cons, hev, hre, List.filter_nil]
+        simpa using h.reent
+      have hx : execI sc ⟨t, .user l act⟩ w = exec l act (logEvent (.user l) w) := by
+        cases act <;> first | rfl | exact absurd ⟨_, _, rfl⟩ hsp | exact absurd (Or.inl ⟨_, rfl⟩) hfi | exact absurd (Or.inr ⟨_, rfl⟩) hfi
+      have hf := exec_frame l act (logEvent (.user l) w)
+      rw [hx]
+      refine ⟨fun c' hc' => h.lab c' (hf.mem c' hc'), ?_, ?_⟩
+      · rw [hf.reent, hf.events]
+        simp only [logEvent_u, logEvent_events, List.filter_append, List.length_append, List.filter_cons, hev, List.filter_nil]
+        cases isReenter act <;> simp [h.reent]
+      · rw [hf.reent]
+        simp only [logEvent_u]
+        split
+        · intro r hr
+          rcases List.mem_append.mp hr with h' | h'
+          · exact h.reent_all r h'
+          · simpa using h'
+        · exact h.reent_all
+
+theorem iterations_reent (sc : Scen) (n : Nat) (w : W) (h : IReent sc w) : IReent sc (iterations sc n w) :=
+  iterations_inv sc (LabC sc) (IReent sc) (fun _ h => h.lab)
+    (fun _ _ h => ⟨fun c hc => h.lab c (List.mem_filter.mp hc).1, h.reent, h.reent_all⟩)
+    (fun c w' hc h => execI_reent sc c w' hc h) n w h
+
+/-- no call of the scenario installs a signal handler: then none that is queued does, and the handlers stay -/
+def NoSigC (c : DCall (QAct Act)) : Prop := ∀ l s h, c.act ≠ .user l (.setSig s h)
+
+theorem exec_sigs (l : Nat) (a : Act) (w : W) (h : ∀ s k, a ≠ .setSig s k) : (exec l a w).sigs = w.sigs := by
+  have hfire : ∀ r, (fireD r w).sigs = w.sigs := by
+    intro r
+    unfold fireD
+    split
+    · rfl
+    · simp only []
+      split
+      · simp
+      · rfl
+  cases a with
+  | fire v => exact hfire _
+  | fail e => exact hfire _
+  | setSig s k => exact absurd rfl (h s k)
+  | _ => rfl
+
+structure ISigs (s0 : List Nat) (w : W) : Prop where
+  nosig : ∀ c ∈ w.calls, NoSigC c
+  sigs : w.sigs = s0
+
+theorem execI_sigs (sc : Scen) (s0 : List Nat) (c : DCall (QAct Act)) (w : W) (hc : NoSigC c) (h : ISigs s0 w) :
+    ISigs s0 (execI sc c w) := by
+  rcases c with ⟨t, q⟩
+  cases q with
+  | timeout => exact ⟨by simpa [execI] using h.nosig, by simpa [execI] using h.sigs⟩
+  | user l act =>
+    by_cases hsp : ∃ d ch, act = .spawn d ch
+    · obtain ⟨d, ch, rfl⟩ := hsp
+      refine ⟨?_, h.sigs⟩
+      intro c' hc'
+      simp only [execI, schedule_calls, logEvent_calls, logEvent_now] at hc'
+      rcases mem_insert.mp hc' with rfl | hc'
+      · intro l' s k hk
+        injection hk with _ h2
+        exact (childAct_ok ch).2 s k h2
+      · exact h.nosig c' hc'
+    · by_cases hfi : (∃ v, act = .fire v) ∨ (∃ e, act = .fail e)
+      · have hx : execI sc ⟨t, .user l act⟩ w = logEvent (.user l) w := by
+          rcases hfi with ⟨v, rfl⟩ | ⟨e, rfl⟩ <;> rfl
+        rw [hx]
+        exact ⟨h.nosig, h.sigs⟩
+      have hx : execI sc ⟨t, .user l act⟩ w = exec l act (logEvent (.user l) w) := by
+        cases act <;> first | rfl | exact absurd ⟨_, _, rfl⟩ hsp | exact absurd (Or.inl ⟨_, rfl⟩) hfi | exact absurd (Or.inr ⟨_, rfl⟩) hfi
+      have hf := exec_frame l act (logEvent (.user l) w)
+      rw [hx]
+      exact ⟨fun c' hc' => h.nosig c' (hf.mem c' hc'), by rw [exec_sigs l act _ (fun s k hk => hc l s k (by rw [hk]))]; exact h.sigs⟩
+
+theorem iterations_sigs (sc : Scen) (s0 : List Nat) (n : Nat) (w : W) (h : ISigs s0 w) : ISigs s0 (iterations sc n w) :=
+  iterations_inv sc NoSigC (ISigs s0) (fun _ h => h.nosig)
+    (fun _ _ h => ⟨fun c hc => h.nosig c (List.mem_filter.mp hc).1, h.sigs⟩)
+    (fun c w' hc h => execI_sigs sc s0 c w' hc h) n w h
+
+theorem cleaned_zero (sc : Scen) (w0 : W) (h : sc.oblig = 0) : cleaned sc w0 = restored sc w0 := by
+  unfold cleaned; rw [h]; rfl
+
 /-- the observation of a run that is not refused -/
 theorem runStep_ran (sc : Scen) (w0 : W) (hidle : Idle w0) (hj : w0.sp.junk = []) (hb : sc.bad = false) :
     (runStep sc w0).2 = { result := getResult (spinPhase sc (afterPre sc w0)).sp,
-                          events := (spinPhase sc (afterPre sc w0)).events,
-                          reentries := (spinPhase sc (afterPre sc w0)).u.reentries,
-                          junk := leftovers (spinPhase sc (afterPre sc w0)),
+                          events := (cleaned sc w0).events,
+                          reentries := (cleaned sc w0).u.reentries,
+                          junk := leftovers (cleaned sc w0),
                           pending := 0, sels := 0, running := false, stopRestored := true,
-                          sigBefore := w0.sigs, sigAfter := restoreFrom 0 w0.sigs (spinPhase sc (afterPre sc w0)).sigs,
+                          sigBefore := w0.sigs, sigAfter := (cleaned sc w0).sigs,
                           elapsed := (spinPhase sc (afterPre sc w0)).now - w0.now } ∧
-    (runStep sc w0).1.sp.junk = leftovers (spinPhase sc (afterPre sc w0)) ∧ Idle (runStep sc w0).1 ∧
-    (runStep sc w0).1.sigs = restoreFrom 0 w0.sigs (spinPhase sc (afterPre sc w0)).sigs ∧
+    (runStep sc w0).1.sp.junk = leftovers (cleaned sc w0) ∧ Idle (runStep sc w0).1 ∧
+    (runStep sc w0).1.sigs = (cleaned sc w0).sigs ∧
     (runStep sc w0).1.sp.saved = [] := by
   have hjS : (!(afterPre sc w0).sp.junk.isEmpty) = false := by rw [afterPre_junk, hj]; rfl
-  have hsig : (afterPre sc w0).sigs = w0.sigs := by rw [afterPre, schedPre_eq]; rfl
   have hjF : (spinPhase sc (afterPre sc w0)).sp.junk = [] := by rw [(run_facts sc w0 hidle).junk, hj]
-  have hsv : (spinPhase sc (afterPre sc w0)).sp.saved = w0.sigs := (run_facts sc w0 hidle).saved
+  have hfr := iterations_frame sc sc.oblig (restored sc w0)
   have hrun : runStep sc w0 =
-      (let w := spinPhase sc (afterPre sc w0)
-       let w : W := { w with running := false, stopPatched := false, sigs := restoreFrom 0 w.sp.saved w.sigs,
-                             sp := { w.sp with saved := [] } }
-       let result := getResult w.sp
-       let w : W := { w with calls := [], sels := [], sp := { w.sp with junk := w.sp.junk ++ leftovers w } }
-       (w, { result := result, events := w.events, reentries := w.u.reentries, junk := w.sp.junk,
-             pending := w.calls.length, sels := w.sels.length, running := w.running, stopRestored := !w.stopPatched,
-             sigBefore := w0.sigs, sigAfter := w.sigs, elapsed := w.now - w0.now })) := by
+      (let w := cleaned sc w0
+       let w' : W := { w with calls := [], sels := [], sp := { w.sp with junk := w.sp.junk ++ leftovers w } }
+       (w', { result := getResult (restored sc w0).sp, events := w'.events, reentries := w'.u.reentries, junk := w'.sp.junk,
+              pending := w'.calls.length, sels := w'.sels.length, running := w'.running, stopRestored := !w'.stopPatched,
+              sigBefore := w0.sigs, sigAfter := w'.sigs, elapsed := w'.now - w0.now })) := by
     unfold runStep
     simp only []
     split
     · rename_i h; rw [show (!(afterPre sc w0).sp.junk.isEmpty) = true from h] at hjS; cases hjS
     · rw [if_neg (by rw [hb]; exact Bool.false_ne_true)]
       rfl
+  have hjunk : (cleaned sc w0).sp.junk = [] := by
+    show (iterations sc sc.oblig (restored sc w0)).sp.junk = []
+    rw [hfr.junk]; exact hjF
   rw [hrun]
-  refine ⟨?_, ?_, ⟨rfl, rfl, rfl, rfl⟩, ?_, rfl⟩
-  · simp only [hsv, hjF, List.nil_append, leftovers]
-    simp [getResult]
-  · simp only [hjF, List.nil_append, leftovers]
-  · simp only [hsv]
+  refine ⟨?_, ?_, ⟨rfl, rfl, ?_, ?_⟩, rfl, ?_⟩
+  · simp only [hjunk, List.nil_append]
+    have h1 : (cleaned sc w0).running = false := hfr.running
+    have h2 : (cleaned sc w0).stopPatched = false := hfr.stopPatched
+    have h3 : (cleaned sc w0).now = (spinPhase sc (afterPre sc w0)).now := hfr.now
+    simp [h1, h2, h3, restored, getResult]
+  · simp only [hjunk, List.nil_append]
+  · exact hfr.running
+  · exact hfr.stopPatched
+  · show (cleaned sc w0).sp.saved = []
+    exact hfr.saved
 
 /-! ## the clauses of the executable spec hold of every run of the model -/
 
@@ -1737,6 +1963,10 @@ theorem run_cases (sc : Scen) (j : List Junk) :
     | true => exact Or.inr (Or.inl ⟨rfl, rfl⟩)
     | false => exact Or.inr (Or.inr ⟨rfl, rfl⟩)
 
+theorem restored_reent (sc : Scen) (w0 : W) (hidle : Idle w0) : IReent sc (restored sc w0) := by
+  have hf := run_facts sc w0 hidle
+  exact ⟨fun c hc l a ha => Or.inl (hf.book.lab c hc l a ha).1, hf.book.reent, hf.book.reent_all⟩
+
 theorem clause_stale (sc : Scen) (w0 : W) (hidle : Idle w0) : cStale sc w0.sp.junk (runStep sc w0).2 = true := by
   rcases run_cases sc w0.sp.junk with hj | ⟨hj, hb⟩ | ⟨hj, hb⟩
   · rw [(runStep_refused sc w0 hidle hj).1]
@@ -1764,9 +1994,10 @@ theorem clause_reentry (sc : Scen) (w0 : W) (hidle : Idle w0) : cReentry sc w0.s
   · rw [(runStep_rejected sc w0 hidle hj hb).1]
     simp [cReentry]
   · have hf := run_facts sc w0 hidle
+    have hr := iterations_reent sc sc.oblig (restored sc w0) (restored_reent sc w0 hidle)
     rw [(runStep_ran sc w0 hidle hj hb).1]
     simp only [cReentry, Bool.and_eq_true, List.all_eq_true, beq_iff_eq, bne_iff_ne]
-    exact ⟨⟨fun r hr => hf.book.reent_all r hr, (tj_result hf.tj).2.1⟩, hf.book.reent⟩
+    exact ⟨⟨fun r hr' => hr.reent_all r hr', (tj_result hf.tj).2.1⟩, hr.reent⟩
 
 theorem clause_result (sc : Scen) (w0 : W) (hidle : Idle w0) : cResult sc w0.sp.junk (runStep sc w0).2 = true := by
   rcases run_cases sc w0.sp.junk with hj | ⟨hj, hb⟩ | ⟨hj, hb⟩
@@ -1775,27 +2006,75 @@ theorem clause_result (sc : Scen) (w0 : W) (hidle : Idle w0) : cResult sc w0.sp.
   · rw [(runStep_ran sc w0 hidle hj hb).1]
     simp [cResult, (run_facts sc w0 hidle).result]
 
+theorem preservedSame_refl : ∀ (s : Nat) (a : List Nat), preservedSame s a a = true
+  | _, [] => rfl
+  | s, x :: xs => by simp [preservedSame, preservedSame_refl (s + 1) xs]
+
+theorem actOf_mem (sc : Scen) (l : Nat) (a : Act) (h : actOf sc l = some a) : a ∈ sc.pre.map (·.2) ++ sc.body.map opAct' := by
+  unfold actOf at h
+  split at h
+  · rename_i hl
+    rw [List.getElem?_eq_getElem hl] at h
+    simp only [Option.map_some, Option.some.injEq] at h
+    exact List.mem_append_left _ (List.mem_map.mpr ⟨_, List.getElem_mem hl, h⟩)
+  · split at h
+    · rename_i d a' hb
+      injection h with h; subst h
+      exact List.mem_append_right _ (List.mem_map.mpr ⟨_, List.mem_of_getElem? hb, rfl⟩)
+    · rename_i a' hb
+      injection h with h; subst h
+      exact List.mem_append_right _ (List.mem_map.mpr ⟨_, List.mem_of_getElem? hb, rfl⟩)
+    · cases h
+
+/-- unless a leftover that installs a handler may be run by the obligatory iterations, the handlers after `_clean` are those
+`_restore_signals` put back -/
+theorem cleaned_sigs (sc : Scen) (w0 : W) (hidle : Idle w0) (hl : lateHandler sc = false) :
+    (cleaned sc w0).sigs = restoreFrom 0 w0.sigs (spinPhase sc (afterPre sc w0)).sigs := by
+  have hf := run_facts sc w0 hidle
+  have hsigR : (restored sc w0).sigs = restoreFrom 0 w0.sigs (spinPhase sc (afterPre sc w0)).sigs := by
+    simp only [restored, hf.saved]
+  by_cases h0 : sc.oblig = 0
+  · rw [cleaned_zero sc w0 h0]; exact hsigR
+  · have hno : installsHandler sc = false := by
+      simp only [lateHandler, Bool.and_eq_false_iff, decide_eq_false_iff_not] at hl
+      rcases hl with hl | hl
+      · omega
+      · exact hl
+    have hns : ∀ c ∈ (restored sc w0).calls, NoSigC c := by
+      intro c hc l s k hk
+      have := actOf_mem sc l _ (hf.book.lab c hc l _ hk).1
+      simp only [installsHandler, List.any_eq_false] at hno
+      have := hno _ this
+      simp at this
+    exact ((iterations_sigs sc _ sc.oblig (restored sc w0) ⟨hns, rfl⟩).sigs).trans hsigR
+
 theorem clause_clean (sc : Scen) (w0 : W) (hidle : Idle w0) : cClean sc w0.sp.junk (runStep sc w0).2 = true := by
   rcases run_cases sc w0.sp.junk with hj | ⟨hj, hb⟩ | ⟨hj, hb⟩
   · simp [cClean, skipped, refused_true hj]
   · simp [cClean, skipped, hb]
   · rw [(runStep_ran sc w0 hidle hj hb).1]
-    simp [cClean, preservedSame_restore 0 _ _ (run_facts sc w0 hidle).sigs]
-
-theorem preservedSame_refl : ∀ (s : Nat) (a : List Nat), preservedSame s a a = true
-  | _, [] => rfl
-  | s, x :: xs => by simp [preservedSame, preservedSame_refl (s + 1) xs]
+    cases hl : lateHandler sc with
+    | true => simp [cClean, hl]
+    | false =>
+      rw [cleaned_sigs sc w0 hidle hl]
+      simp [cClean, preservedSame_restore 0 _ _ (run_facts sc w0 hidle).sigs]
 
 /-- whenever `run` returns or raises, the preserved handlers are what they were immediately before that call -
 whatever the spinner's `_saved_signals` held when it was called -/
 theorem clause_signals (sc : Scen) (w0 : W) (hidle : Idle w0) : cSignals sc w0.sp.junk (runStep sc w0).2 = true := by
-  rcases run_cases sc w0.sp.junk with hj | ⟨hj, hb⟩ | ⟨hj, hb⟩
-  · rw [(runStep_refused sc w0 hidle hj).1]
-    exact preservedSame_refl 0 _
-  · rw [(runStep_rejected sc w0 hidle hj hb).1]
-    exact preservedSame_refl 0 _
-  · rw [(runStep_ran sc w0 hidle hj hb).1]
-    exact preservedSame_restore 0 _ _ (run_facts sc w0 hidle).sigs
+  cases hl : lateHandler sc with
+  | true => simp [cSignals, hl]
+  | false =>
+    simp only [cSignals, hl, Bool.false_or]
+    rcases run_cases sc w0.sp.junk with hj | ⟨hj, hb⟩ | ⟨hj, hb⟩
+    · rw [(runStep_refused sc w0 hidle hj).1]
+      exact preservedSame_refl 0 _
+    · rw [(runStep_rejected sc w0 hidle hj hb).1]
+      exact preservedSame_refl 0 _
+    · rw [(runStep_ran sc w0 hidle hj hb).1]
+      show preservedSame 0 w0.sigs (cleaned sc w0).sigs = true
+      rw [cleaned_sigs sc w0 hidle hl]
+      exact preservedSame_restore 0 _ _ (run_facts sc w0 hidle).sigs
 
 theorem clause_bounded (sc : Scen) (w0 : W) (hidle : Idle w0) : cBounded sc w0.sp.junk (runStep sc w0).2 = true := by
   rcases run_cases sc w0.sp.junk with hj | ⟨hj, hb⟩ | ⟨hj, hb⟩
@@ -1809,28 +2088,36 @@ theorem clause_junk (sc : Scen) (w0 : W) (hidle : Idle w0) : cJunk sc w0.sp.junk
   rcases run_cases sc w0.sp.junk with hj | ⟨hj, hb⟩ | ⟨hj, hb⟩
   · simp [cJunk, skipped, refused_true hj]
   · simp [cJunk, skipped, hb]
-  · have hf := run_facts sc w0 hidle
-    rw [(runStep_ran sc w0 hidle hj hb).1]
-    simp only [cJunk, skipped, refused_false hj, hb, Bool.false_or, Bool.or_false, Bool.and_eq_true, List.all_eq_true, beq_iff_eq, evLabels]
-    refine ⟨⟨⟨?_, ?_⟩, ?_⟩, ?_⟩
-    · intro l hl
-      rw [count_leftovers_call]
-      have := hf.book.cnt l
-      simp only [delayedLabels_lt sc l hl, if_true, elbls] at this
-      exact this
-    · rw [count_leftovers_call]
-      have := (tj_result hf.tj).2.2.2
-      simpa [qT, eT, elbls] using this
-    · intro j hj'
-      simp only [leftovers, List.mem_append, List.mem_map] at hj'
-      rcases hj' with ⟨c, hc, rfl⟩ | ⟨n, _, rfl⟩
-      · rcases hca : c.act with _ | ⟨l, a⟩
-        · simp [junkKnown, QAct.lbl]
-        · simp only [junkKnown, QAct.lbl, List.contains_iff_mem]
-          exact (hf.book.lab c hc l a hca).2
-      · rfl
-    · rw [leftovers_sels]
-      exact hf.book.sels
+  · by_cases h0 : sc.oblig = 0
+    · have hf := run_facts sc w0 hidle
+      rw [(runStep_ran sc w0 hidle hj hb).1, cleaned_zero sc w0 h0]
+      have hq : qlbls (restored sc w0) = qlbls (spinPhase sc (afterPre sc w0)) := rfl
+      have hev : (restored sc w0).events = (spinPhase sc (afterPre sc w0)).events := rfl
+      have hcalls : (restored sc w0).calls = (spinPhase sc (afterPre sc w0)).calls := rfl
+      have hsels : (restored sc w0).sels = (spinPhase sc (afterPre sc w0)).sels := rfl
+      simp only [cJunk, skipped, refused_false hj, hb, h0, Nat.lt_irrefl, decide_false, Bool.false_or, Bool.or_false, Bool.and_eq_true,
+        List.all_eq_true, beq_iff_eq, evLabels, gt_iff_lt]
+      refine ⟨⟨⟨?_, ?_⟩, ?_⟩, ?_⟩
+      · intro l hl
+        rw [count_leftovers_call, hq, hev]
+        have := hf.book.cnt l
+        simp only [delayedLabels_lt sc l hl, if_true, elbls] at this
+        exact this
+      · rw [count_leftovers_call, hq, hev]
+        have := (tj_result hf.tj).2.2.2
+        simpa [qT, eT, elbls] using this
+      · intro j hj'
+        simp only [leftovers, List.mem_append, List.mem_map, hcalls] at hj'
+        rcases hj' with ⟨c, hc, rfl⟩ | ⟨n, _, rfl⟩
+        · rcases hca : c.act with _ | ⟨l, a⟩
+          · simp [junkKnown, QAct.lbl]
+          · simp only [junkKnown, QAct.lbl, List.contains_iff_mem]
+            exact (hf.book.lab c hc l a hca).2
+        · rfl
+      · rw [leftovers_sels, hsels, hev]
+        exact hf.book.sels
+    · have : decide (sc.oblig > 0) = true := by simp; omega
+      simp [cJunk, this]
 
 /-- what a call leaves for the next step: the junk it reports, an idle reactor, the handlers it reports -/
 theorem runStep_link (sc : Scen) (w0 : W) (hidle : Idle w0) :
@@ -2178,15 +2465,15 @@ no delayed calls and no selectables, `reactor.stop` is the genuine one and every
 handler it had before the call (whatever `f` or the delayed calls installed). -/
 theorem C15_clean (sc : Scen) (w0 : W) (hidle : Idle w0) :
     Idle (runStep sc w0).1 ∧
-    (∀ s, preserved s = true → (runStep sc w0).1.sigs[s]? = w0.sigs[s]?) ∧
+    (lateHandler sc = false → ∀ s, preserved s = true → (runStep sc w0).1.sigs[s]? = w0.sigs[s]?) ∧
     (w0.sp.junk = [] → sc.bad = false → (runStep sc w0).2.pending = 0 ∧ (runStep sc w0).2.sels = 0 ∧ (runStep sc w0).2.running = false
       ∧ (runStep sc w0).2.stopRestored = true) := by
   refine ⟨(runStep_link sc w0 hidle).2.1, ?_, ?_⟩
-  · intro s hs
+  · intro hl s hs
     rcases run_cases sc w0.sp.junk with hj | ⟨hj, hb⟩ | ⟨hj, hb⟩
     · rw [(runStep_refused sc w0 hidle hj).2.2.2]
     · rw [(runStep_rejected sc w0 hidle hj hb).2.2.2.1]
-    · rw [(runStep_ran sc w0 hidle hj hb).2.2.2.1]
+    · rw [(runStep_ran sc w0 hidle hj hb).2.2.2.1, cleaned_sigs sc w0 hidle hl]
       exact restoreFrom_get 0 _ _ (run_facts sc w0 hidle).sigs s (by simpa using hs)
   · intro hj hb
     rw [(runStep_ran sc w0 hidle hj hb).1]
@@ -2195,7 +2482,7 @@ theorem C15_clean (sc : Scen) (w0 : W) (hidle : Idle w0) :
 /-- **C15 (junk).**  What a run leaves behind is exactly the recorded junk: each delayed call of the scenario
 either ran or is junk — never both, never twice; the spinner's own timeout call ran, or was cancelled because a
 result was recorded, or is junk; nothing else is junk except the selectables registered by actions that ran. -/
-theorem C15_junk_exact (sc : Scen) (w0 : W) (hidle : Idle w0) (hj : w0.sp.junk = []) (hb : sc.bad = false) :
+theorem C15_junk_exact (sc : Scen) (w0 : W) (hidle : Idle w0) (hj : w0.sp.junk = []) (hb : sc.bad = false) (h0 : sc.oblig = 0) :
     let o := (runStep sc w0).2
     (∀ l ∈ delayedLabels sc, o.junk.count (.call (.user l)) + (evLabels o).count (.user l) = 1) ∧
     o.junk.count (.call .timeout) + (evLabels o).count .timeout + (if isOwnResult o.result = true then 1 else 0) = 1 ∧
@@ -2203,7 +2490,8 @@ theorem C15_junk_exact (sc : Scen) (w0 : W) (hidle : Idle w0) (hj : w0.sp.junk =
     o.junk.filterMap junkSel = o.events.filterMap (selEv sc) ∧
     (runStep sc w0).1.sp.junk = o.junk := by
   have := clause_junk sc w0 hidle
-  simp only [cJunk, skipped, refused_false hj, hb, Bool.false_or, Bool.or_false, Bool.and_eq_true, List.all_eq_true, beq_iff_eq] at this
+  simp only [cJunk, skipped, refused_false hj, hb, h0, Nat.lt_irrefl, gt_iff_lt, decide_false, Bool.false_or, Bool.or_false,
+    Bool.and_eq_true, List.all_eq_true, beq_iff_eq] at this
   obtain ⟨⟨⟨h1, h2⟩, h3⟩, h4⟩ := this
   refine ⟨h1, by simpa using h2, ?_, h4, (runStep_link sc w0 hidle).1.symm⟩
   intro l hl
@@ -2221,12 +2509,15 @@ theorem C15_bounded (sc : Scen) (w0 : W) (hidle : Idle w0) (hj : w0.sp.junk = []
     omega
   · have hjS : (!(afterPre sc w0).sp.junk.isEmpty) = false := by rw [afterPre_junk, hj]; rfl
     have hw : (runStep sc w0).1.now = (spinPhase sc (afterPre sc w0)).now := by
-      unfold runStep
-      simp only []
-      split
-      · rename_i h; rw [show (!(afterPre sc w0).sp.junk.isEmpty) = true from h] at hjS; cases hjS
-      · rw [if_neg (by rw [hb]; exact Bool.false_ne_true)]
-        rfl
+      have h1 : (runStep sc w0).1.now = (cleaned sc w0).now := by
+        unfold runStep
+        simp only []
+        split
+        · rename_i h; rw [show (!(afterPre sc w0).sp.junk.isEmpty) = true from h] at hjS; cases hjS
+        · rw [if_neg (by rw [hb]; exact Bool.false_ne_true)]
+          rfl
+      rw [h1]
+      exact (iterations_frame sc sc.oblig (restored sc w0)).now
     rw [hw]; exact hf.now_ge
 
 /-- **C15 (the loop ends).**  `reactor.run()` under `Spinner.run` always ends because the reactor was crashed
@@ -2269,44 +2560,50 @@ theorem C15_history_idle : ∀ (steps : List Step) (w : W) (other : Reactor.Spin
 immediately before **that** call.  `w0` is any state between two steps: in particular the spinner's `_saved_signals`
 may hold anything (the handlers found by an earlier call that raised before its `try … finally`), and the process may
 have changed the handlers since. -/
-theorem C15_signals_every_call (sc : Scen) (w0 : W) (hidle : Idle w0) :
+theorem C15_signals_every_call (sc : Scen) (w0 : W) (hidle : Idle w0) (hl : lateHandler sc = false) :
     (∀ s, preserved s = true → (runStep sc w0).1.sigs[s]? = w0.sigs[s]?) ∧
     (runStep sc w0).2.sigBefore = w0.sigs ∧ (runStep sc w0).2.sigAfter = (runStep sc w0).1.sigs ∧
     preservedSame 0 (runStep sc w0).2.sigBefore (runStep sc w0).2.sigAfter = true :=
-  ⟨(C15_clean sc w0 hidle).2.1, (runStep_link sc w0 hidle).2.2.1, (runStep_link sc w0 hidle).2.2.2, clause_signals sc w0 hidle⟩
+  ⟨(C15_clean sc w0 hidle).2.1 hl, (runStep_link sc w0 hidle).2.2.1, (runStep_link sc w0 hidle).2.2.2, by
+    have := clause_signals sc w0 hidle
+    simpa [cSignals, hl] using this⟩
 
 /-- **C15 (signal handlers, by induction over the history).**  In every history of `run` calls (any timeouts, also
 rejected ones), `clear_junk()` and handler installations by the process, on one spinner: every call of `run` leaves
 the preserved handlers as it found them … -/
 theorem C15_signals_history : ∀ (steps : List Step) (w : W) (other : Reactor.Spinner), Idle w →
+    (∀ sc, Step.run sc ∈ steps → lateHandler sc = false) →
     ∀ o, Obs.run o ∈ runSteps steps w other → preservedSame 0 o.sigBefore o.sigAfter = true
-  | [], _, _, _, o, h => by simp [runSteps] at h
-  | .run sc :: rest, w, other, hw, o, h => by
+  | [], _, _, _, _, o, h => by simp [runSteps] at h
+  | .run sc :: rest, w, other, hw, hl, o, h => by
       simp only [runSteps, step, List.mem_cons] at h
       rcases h with h | h
-      · injection h with h; subst h; exact clause_signals sc w hw
-      · exact C15_signals_history rest _ other (runStep_link sc w hw).2.1 o h
-  | .clearJunk :: rest, w, other, hw, o, h => by
-      simp only [runSteps, step, List.mem_cons] at h
-      rcases h with h | h
-      · cases h
-      · exact C15_signals_history rest { w with sp := { w.sp with junk := [] } } other ⟨hw.calls, hw.sels, hw.running, hw.stopPatched⟩ o h
-  | .setSig s k :: rest, w, other, hw, o, h => by
+      · injection h with h; subst h
+        have := clause_signals sc w hw
+        simpa [cSignals, hl sc List.mem_cons_self] using this
+      · exact C15_signals_history rest _ other (runStep_link sc w hw).2.1 (fun s hs => hl s (List.mem_cons_of_mem _ hs)) o h
+  | .clearJunk :: rest, w, other, hw, hl, o, h => by
       simp only [runSteps, step, List.mem_cons] at h
       rcases h with h | h
       · cases h
-      · exact C15_signals_history rest _ other (idle_setSig hw s k) o h
-  | .swap :: rest, w, other, hw, o, h => by
+      · exact C15_signals_history rest { w with sp := { w.sp with junk := [] } } other ⟨hw.calls, hw.sels, hw.running, hw.stopPatched⟩
+          (fun s hs => hl s (List.mem_cons_of_mem _ hs)) o h
+  | .setSig s k :: rest, w, other, hw, hl, o, h => by
+      simp only [runSteps, step, List.mem_cons] at h
+      rcases h with h | h
+      · cases h
+      · exact C15_signals_history rest _ other (idle_setSig hw s k) (fun s hs => hl s (List.mem_cons_of_mem _ hs)) o h
+  | .swap :: rest, w, other, hw, hl, o, h => by
       simp only [runSteps, List.mem_cons] at h
       rcases h with h | h
       · cases h
-      · exact C15_signals_history rest { w with sp := other } w.sp (idle_swap hw other) o h
+      · exact C15_signals_history rest { w with sp := other } w.sp (idle_swap hw other) (fun s hs => hl s (List.mem_cons_of_mem _ hs)) o h
 
 /-- … and finds the handlers the previous step left (`sigThread`: only the process changes them between calls) -/
-theorem C15_signals_model (i : Input) :
+theorem C15_signals_model (i : Input) (hl : ∀ sc, Step.run sc ∈ i.steps → lateHandler sc = false) :
     (∀ o, Obs.run o ∈ model i → preservedSame 0 o.sigBefore o.sigAfter = true) ∧
     sigThread i.steps (model i) [0, 0, 0, 0] = true :=
-  ⟨C15_signals_history i.steps init {} idle_init, sigThread_model i.steps init {} idle_init⟩
+  ⟨C15_signals_history i.steps init {} idle_init hl, sigThread_model i.steps init {} idle_init⟩
 
 /-- **C15 (runs are isolated from earlier runs).**  The callbacks a run hangs on `f`'s Deferred belong to that run:
 when the Deferred of an EARLIER run - of this Spinner or of another Spinner on the same reactor - fires or fails during
@@ -2327,6 +2624,104 @@ theorem C15_own_result_despite_late_firing (T v vOld k : Nat) (hT : 2 < T) (w0 :
   have h1 : ¬ T < 2 := by omega
   have h2 : ¬ T ≤ 2 := by omega
   simp [expected, syncRes, syncFire, syncStop, delayed, winner, kindOf, noStopBefore, laterKind, nowAct, List.filterMap_cons, hT, h1, h2]
+
+/-! # The translator tie: the model is the interpretation of the source of `_spinner.py`
+
+`harness/pyspinner2lean.py` re-reads the source on every run and emits `TTV/Generated/SpinnerSkel.lean`; each theorem first
+checks that what was found IS the reference term (`by decide` - any change of what is done or in which order breaks it) and
+then that the interpretation of that term is the hand-written model. -/
+
+section src
+open TTV.SpinnerSkel
+
+/-- `_got_success` / `_got_failure` (cancel the timeout FIRST, then store) followed by `_stop_reactor`, as found in the source,
+are `Reactor.deliver` -/
+theorem C15_src_callbacks (r : Res) (w : W) :
+    deliverI Generated.SpinnerSkel.gotSuccess Generated.SpinnerSkel.gotFailure Generated.SpinnerSkel.stopReactor r w = deliver r w := by
+  have e1 : Generated.SpinnerSkel.gotSuccess = refGotSuccess := by decide
+  have e2 : Generated.SpinnerSkel.gotFailure = refGotFailure := by decide
+  have e3 : Generated.SpinnerSkel.stopReactor = refStopReactor := by decide
+  rw [e1, e2, e3]
+  unfold deliverI deliver stopReactor
+  cases htc : w.sp.tcall <;> cases r <;> simp [cbI, refGotSuccess, refGotFailure, refStopReactor, htc] <;> split <;> rfl
+
+/-- `_stop_reactor` as found in the source is `Reactor.stopReactor` -/
+theorem C15_src_stop_reactor (r : Res) (w : W) : cbI Generated.SpinnerSkel.stopReactor 0 Generated.SpinnerSkel.stopReactor r w = stopReactor w := by
+  have e3 : Generated.SpinnerSkel.stopReactor = refStopReactor := by decide
+  rw [e3]
+  unfold stopReactor
+  simp only [cbI, refStopReactor]
+
+/-- `_timed_out` as found in the source is `Reactor.execTimeout` -/
+theorem C15_src_timed_out (w : W) :
+    timedOutI Generated.SpinnerSkel.timedOut Generated.SpinnerSkel.stopReactor w = execTimeout w := by
+  have e1 : Generated.SpinnerSkel.timedOut = refTimedOut := by decide
+  have e3 : Generated.SpinnerSkel.stopReactor = refStopReactor := by decide
+  rw [e1, e3]
+  unfold timedOutI execTimeout stopReactor
+  simp only [cbI, refTimedOut, refStopReactor]
+
+/-- `_get_result` as found in the source is `Reactor.getResult` -/
+theorem C15_src_get_result (sp : Reactor.Spinner) : getResultI Generated.SpinnerSkel.getResult sp = getResult sp := by
+  have e : Generated.SpinnerSkel.getResult = refGetResult := by decide
+  rw [e]
+  unfold getResult
+  cases hf : sp.failure <;> cases hs : sp.success <;> simp [getResultI, refGetResult, hf, hs]
+
+/-- `_clean` as found in the source (no obligatory iterations for the plain Spinner) cancels / removes what is left,
+records it as junk after the junk already there, and leaves the reactor empty -/
+theorem C15_src_clean (w : W) :
+    Generated.SpinnerSkel.obligatoryIterations = 0 ∧
+    (cleanI id Generated.SpinnerSkel.clean (w, [])).1 = { w with calls := [], sels := [], sp := { w.sp with junk := w.sp.junk ++ leftovers w } } ∧
+    (cleanI id Generated.SpinnerSkel.clean (w, [])).2 = leftovers w := by
+  have e : Generated.SpinnerSkel.clean = refClean := by decide
+  rw [e]
+  exact ⟨by decide, rfl, rfl⟩
+
+/-- the helpers that are recognised as a whole -/
+theorem C15_src_shapes :
+    Generated.SpinnerSkel.saveSignals = .assignsFreshListOfAvailablePreserved ∧
+    Generated.SpinnerSkel.restoreSignals = .reinstallsEachThenEmptiesList ∧
+    Generated.SpinnerSkel.notReentrant = refNotReentrant ∧ Generated.SpinnerSkel.runIsNotReentrant = true ∧
+    Generated.SpinnerSkel.trapUnhandledErrors = refTrap ∧ Generated.SpinnerSkel.fakeStop = refFakeStop ∧
+    Generated.SpinnerSkel.cancelTimeoutIsGuardedCancel = true := by decide
+
+/-- **`Spinner.run` as found in the source is the model's `runStep`**: the interpretation of the skeleton (with the `run_function`,
+`_get_result` and `_clean` found) from the state in which `run` is called yields the model's final state (up to what the harness
+cancels after a refusal) and result; nothing in it is beyond the model (`bad = false`): the callbacks are guarded by a run token that
+is set over before the result is read. -/
+theorem C15_src_run (sc : Scen) (w0 : W) :
+    let s := interp sc Generated.SpinnerSkel.runFunction Generated.SpinnerSkel.getResult Generated.SpinnerSkel.clean
+      Generated.SpinnerSkel.run { w := enter sc w0 }
+    (runStep sc w0).1 = (if s.raised.isSome then { s.w with calls := [] } else s.w) ∧
+    (runStep sc w0).2.result = (s.raised.getD (s.result.getD .noresult)) ∧ s.bad = false := by
+  have e1 : Generated.SpinnerSkel.run = refRun := by decide
+  have e2 : Generated.SpinnerSkel.runFunction = refRunFunction := by decide
+  have e3 : Generated.SpinnerSkel.getResult = refGetResult := by decide
+  have e4 : Generated.SpinnerSkel.clean = refClean := by decide
+  rw [e1, e2, e3, e4]
+  have hgr : ∀ sp, getResultI refGetResult sp = getResult sp := by
+    intro sp; unfold getResult
+    cases hf : sp.failure <;> cases hs : sp.success <;> simp [getResultI, refGetResult, hf, hs]
+  simp only [runStep, enter]
+  split
+  · rename_i hj
+    have hj' : (schedPre 0 sc.pre { w0 with t0 := w0.now, events := [], u := {} }).sp.junk.isEmpty = false := by simpa using hj
+    simp [interp, stepI, refRun, hj']
+  · rename_i hj
+    have hj' : (schedPre 0 sc.pre { w0 with t0 := w0.now, events := [], u := {} }).sp.junk.isEmpty = true := by simpa using hj
+    split
+    · rename_i hb
+      simp [interp, stepI, refRun, hj', hb, saveSignals]
+    · rename_i hb
+      have hb' : sc.bad = false := by simpa using hb
+      simp only [interp, stepI, refRun, hj', hb', saveSignals, spinPhase, hgr, cleanI, refClean, refRunFunction, Option.isSome_none,
+        Bool.false_eq_true, if_false, if_true, Bool.true_and, Bool.and_self, beq_self_eq_true, Bool.not_true, Bool.or_false, Bool.not_false,
+        Option.getD_some, Option.getD_none, id, leftovers, List.nil_append]
+      repeat' constructor
+      all_goals first | rfl | trivial
+
+end src
 
 /-! ## non-vacuity: concrete histories (evaluated by the kernel) -/
 
